@@ -240,7 +240,7 @@ pub fn run(ctx: Ctx, replay: Option<PathBuf>) -> i32 {
         return ck.finish();
     }
     ck.replay_listed(replay_case);
-    let cases = ctx.tier.pick(20_000u32, 1_000_000u32);
+    let cases = ctx.tier.pick(200_000u32, 1_000_000u32);
     let state = RefCell::new((ck, false));
     let fail = tape::run_tapes(ctx.seed, cases, 0, 40, |t| {
         let e = gen_case(&mut Tape::new(t));
